@@ -320,6 +320,21 @@ def gen_cases(rng, tier):
                         sc = _script(rng, rng.choice(SC_LENS) if rng.random() < 0.5 else rng.randrange(1, 601))
                         _both(out, "product/f=%02x%s" % (flag, _single_cls(flag, idx, n_out)),
                               [ver, ins, outs, lt, idx, _amount(rng), sc, flag])
+    # ---- consecutive calls on RELATED transactions (same process): same outpoints with other sequences (RBF bump),
+    #      same sequences with other outpoints, same inputs with other outputs - every call must stand on its own ----
+    for _ in range(12 if T else 4):
+        n_in, n_out = rng.randrange(1, 5), rng.randrange(1, 4)
+        ver, ins, outs, lt = rand_tx(rng, n_in, n_out)
+        ins2 = [(i[0], i[1], i[2], (i[3] ^ (1 << rng.randrange(32)))) for i in ins]            # other sequences
+        ins3 = [(rng.randbytes(32), i[1], i[2], i[3]) for i in ins]       # other outpoints
+        outs2 = [(o[0] + 1 if o[0] < 2 ** 63 else o[0] - 1, o[1]) for o in outs]                # other outputs
+        sc, amt = _script(rng, 25), _amount(rng)
+        for flag in STD_FLAGS:
+            idx = rng.randrange(n_in)
+            for variant, (ii, oo) in (("base", (ins, outs)), ("seq-changed", (ins2, outs)), ("base-again", (ins, outs)),
+                                      ("outpoints-changed", (ins3, outs)), ("outputs-changed", (ins, outs2)),
+                                      ("seq-changed-again", (ins2, outs2))):
+                _both(out, "related-calls/%s" % variant, [ver, list(ii), list(oo), lt, idx, amt, sc, flag])
     # ---- SINGLE boundary: i = n_out - 1, n_out, n_out + 1 ----
     for n_out in range(1, 8):
         for idx in (n_out - 1, n_out, n_out + 1):
